@@ -10,8 +10,11 @@ import (
 	"fmt"
 	"golang.org/x/tools/go/ssa"
 	"os"
+	"path/filepath"
 	"sort"
+	"strconv"
 	"strings"
+	"time"
 )
 
 type propCheck struct {
@@ -120,10 +123,26 @@ func runProp(id, tier string) int {
 	if ov := os.Getenv("VERIF_OVERLAY"); ov != "" {
 		c.loadOverlay(ov)
 	}
+	// watchdog: the analysis of one property takes seconds; if it has not finished after the limit something in the
+	// tree drives a rule into pathological behaviour - report undecided (which fails) instead of hanging
+	limit := 900 * time.Second
+	if v, err := strconv.Atoi(os.Getenv("VERIF_TIME_LIMIT")); err == nil && v > 0 {
+		limit = time.Duration(v) * time.Second
+	}
+	wd := time.AfterFunc(limit, func() {
+		fmt.Printf("  UNDECIDED framework: analysis of %s did not finish within %s\n", id, limit)
+		dir := envOr("VERIF_REPLAY_DIR", filepath.Join(c.Root, "evidence", "replay"))
+		os.MkdirAll(dir, 0o755)
+		replay := filepath.Join(dir, id+".json")
+		os.WriteFile(replay, []byte(fmt.Sprintf(`{"property":%q,"tier":%q,"failed_obligations":[{"rule":"framework","construct":"analysis time limit","status":"undecided","detail":"did not finish within %s"}]}`, id, tier, limit)), 0o644)
+		fmt.Printf("VIOLATION property=%s replay=%s\n", id, replay)
+		os.Exit(1)
+	})
 	c.Load(p.load...)
 	if c.Prog != nil {
 		p.run(c)
 	}
+	wd.Stop()
 	if tier == "thorough" && os.Getenv("VERIF_NO_MUTANTS") == "" {
 		runMutants(c)
 		runBenign(c)
